@@ -134,7 +134,8 @@ class Variable(Program):
     def __init__(self, variable: int, type: Type = UnknownType()):
         super().__init__(type)
         self.variable: int = variable
-        self.hash = hash((self.variable, self.type))
+        # __eq__ only looks at the index: so must the hash
+        self.hash = hash(self.variable)
 
     def is_invariant(self, constant_types: Set[PrimitiveType]) -> bool:
         return False
